@@ -10,6 +10,8 @@ import PV.Properties.C08
 import PV.Proofs.WalkTable
 import PV.Proofs.WalkCallback
 import PV.Generated.Traversal
+import PV.Proofs.DispatchTable
+import PV.Generated.Dispatch
 /-
   C04 — mapper dispatch (`Mapper.__call__`, `rec_fallback`, `CachedMapper.__call__`, `map_foreign`),
   handler names of expression dataclasses, and the contracts of the stock traversals
@@ -722,6 +724,93 @@ example : ∃ err, callbackTrace false (.nary .sum [.var "x", .nary .min [.var "
   callbackTrace_never_silent _ _ (.nary .min [.var "y"]) (.child (by simp [Expr.children])) rfl
 example : (Expr.callKw (.var "f") [] [] []).c04CallbackListed = false ∧
     (Expr.call (.var "f") []).c04CallbackListed = true := ⟨rfl, rfl⟩
+end examples
+
+/-! ## 8. The dispatch CODE and the fold step of the current source (T-gen)
+
+`Generated.c04DispatchSource` is `Mapper.__call__` / `Mapper.rec_fallback` of the tree under test,
+read statement by statement by extract/dispatch.py (a statement the reader does not know — any
+statement touching something else than the locals `method_name`, `method`, `result`, `cls`, e.g. a
+memo table shared between calls / instances / mapper classes — is an extraction error).  `dRun` is
+the interpreter of that statement language (`PV/Model/DispatchTable.lean`). -/
+
+/-- **The dispatch source is the one the model was written against**: the table regenerated from
+the source on this run is, statement for statement, `dispatchSourceLit`. -/
+theorem dispatch_source_current : c04DispatchSource = dispatchSourceLit := rfl
+
+/-- **`Mapper.__call__` of the current source IS `dispatchExpr`**: the statements of the
+regenerated table, run by the interpreter on an expression whose class has MRO `mro` for a mapper
+implementing `hs`, return exactly what the dispatch model says — for all handler sets and MROs. -/
+theorem dispatch_call_eq_table_current (hs : List String) (mro : List (Option String)) :
+    dRun c04DispatchSource.call hs (.expr mro) = .ret (dispatchExpr hs mro) := by
+  rw [dispatch_source_current]; exact dRun_call_lit_expr hs mro
+
+/-- **`Mapper.rec_fallback` of the current source IS `dispatchFallback`.** -/
+theorem dispatch_fallback_eq_table_current (hs : List String) (mro : List (Option String)) :
+    dRun c04DispatchSource.fallback hs (.expr mro) = .ret (dispatchFallback hs mro) := by
+  rw [dispatch_source_current]; exact dRun_fallback_lit_expr hs mro
+
+/-- **Foreign objects** leave both routines of the current source through `map_foreign`. -/
+theorem dispatch_foreign_eq_table_current (hs : List String) (k : ForeignKind) :
+    dRun c04DispatchSource.call hs (.foreign k) = .ret (dispatchForeign k) ∧
+    dRun c04DispatchSource.fallback hs (.foreign k) = .ret (dispatchForeign k) := by
+  rw [dispatch_source_current]
+  exact ⟨dRun_call_lit_foreign hs k, dRun_fallback_lit_foreign hs k⟩
+
+/-- **Nearest handler, for the current source**: the statements of `Mapper.__call__` as they are
+in the tree under test pick the own class's handler if the mapper implements it, else the first
+ancestor's (MRO order) it implements, else the unsupported-expression hook — and nothing else
+enters: the outcome is a function of the handler set and the MRO alone (no state survives a
+call). -/
+theorem dispatch_nearest_table_current (hs : List String) (mro : List (Option String)) :
+    dRun c04DispatchSource.call hs (.expr mro) =
+      .ret (match firstImplemented hs mro with
+        | some m => .handler m
+        | none => .unsupported) := by
+  rw [dispatch_call_eq_table_current, dispatch_nearest]
+
+/-- the recursive entry point `rec` is `__call__` itself, both routines take
+`(self, expr, *args, **kwargs)`, and the only classes of `pymbolic.mapper` with a dispatch routine
+of their own are `Mapper`, `CachedMapper` (`dispatchCached`) and `CachingMapperMixin`. -/
+theorem dispatch_entry_points_current :
+    c04DispatchSource.recIsCall = true ∧ c04DispatchSource.callSig = true ∧
+    c04DispatchSource.fallbackSig = true ∧
+    c04DispatchSource.overriders =
+      [("CachedMapper", "__call__"), ("CachedMapper", "rec"), ("CachingMapperMixin", "__call__"),
+       ("CachingMapperMixin", "rec"), ("Mapper", "__call__"), ("Mapper", "rec"),
+       ("Mapper", "rec_fallback")] := by decide
+
+/-- a table whose ancestor loop starts one class too late is NOT the current one: on a class whose
+direct parent's handler is the only one implemented it reaches the hook. -/
+theorem dispatch_table_edit_cex :
+    dRun [.ifS .isExpression [.forMro 2 dispatchLoopBodyLit [.returnHook]] [.returnForeign]]
+        ["map_b"] (.expr [some "map_c", some "map_b", some "map_a"]) = .ret .unsupported ∧
+    dRun c04DispatchSource.fallback ["map_b"] (.expr [some "map_c", some "map_b", some "map_a"])
+      = .ret (.handler "map_b") := by
+  constructor
+  · decide
+  · rw [dispatch_fallback_eq_table_current]; decide
+
+/-- **The fold step of the stock collectors, current source**: `Collector.combine` is
+`reduce(operator.or_, values, set())` — a NEW set per call, the children's result sets are only
+read (`|`, never `|=`) — `CombineMapper.combine` is the `NotImplementedError` stub, and the cached
+flavours add nothing but `CachedMapper` in front.  (The same source fact as `PV.C09.combine_current`,
+here as an obligation of C04: an in-place union into a child's set changes the table.) -/
+theorem collector_combine_current :
+    c04CollectorCombine = .reduceOr ∧ c04CombineMapperCombine = .notImplemented ∧
+    c04CachedCollectorMro = ["CachedCollector", "CachedMapper", "Collector", "CombineMapper", "Mapper"] ∧
+    c04CachedCombineMro = ["CachedCombineMapper", "CachedMapper", "CombineMapper", "Mapper"] := by
+  decide
+
+section examples
+example : dRun c04DispatchSource.call ["map_sum", "map_foo"]
+    (.expr [some "map_bar", none, some "map_foo", some "map_sum"]) = .ret (.handler "map_foo") := by
+  rw [dispatch_call_eq_table_current]; decide
+example : dRun c04DispatchSource.call [""] (.expr [some ""]) = .ret (.handler "") ∧
+    dRun c04DispatchSource.call [""] (.expr [none, some ""]) = .ret .unsupported := by
+  rw [dispatch_call_eq_table_current, dispatch_call_eq_table_current]; decide
+example : dRun c04DispatchSource.call [] (.foreign .tuple) = .ret (.foreign "map_tuple") :=
+  (dispatch_foreign_eq_table_current [] .tuple).1
 end examples
 
 end PV.C04
